@@ -549,6 +549,91 @@ Theorem ops_D_new (x0 : Z) :
   run_val c (g_D_new c) [("value", MV (VI x0))] = apply_op c 26 [VI x0].
 Proof. ops_tac. Qed.
 
+(* impl Add for Unit *)
+Theorem ops_Add_UU (x0 : unit_) (x1 : unit_) :
+  run_val c (g_Add_UU c) [("self", MV (VU x0)); ("rhs", MV (VU x1))] = apply_op c 1 [VU x0; VU x1].
+Proof. unit_tac c. Qed.
+
+(* impl Sub for Unit *)
+Theorem ops_Sub_UU (x0 : unit_) (x1 : unit_) :
+  run_val c (g_Sub_UU c) [("self", MV (VU x0)); ("rhs", MV (VU x1))] = apply_op c 2 [VU x0; VU x1].
+Proof. unit_tac c. Qed.
+
+(* impl Mul for Unit *)
+Theorem ops_Mul_UU (x0 : unit_) (x1 : unit_) :
+  run_val c (g_Mul_UU c) [("self", MV (VU x0)); ("rhs", MV (VU x1))] = apply_op c 3 [VU x0; VU x1].
+Proof. unit_tac c. Qed.
+
+(* impl Div for Unit *)
+Theorem ops_Div_UU (x0 : unit_) (x1 : unit_) :
+  run_val c (g_Div_UU c) [("self", MV (VU x0)); ("rhs", MV (VU x1))] = apply_op c 4 [VU x0; VU x1].
+Proof. unit_tac c. Qed.
+
+(* impl AddAssign for Unit *)
+Theorem ops_AddAssign_UU (x0 : unit_) (x1 : unit_) :
+  run_self c (g_AddAssign_UU c) [("self", MV (VU x0)); ("rhs", MV (VU x1))] = apply_op c 5 [VU x0; VU x1].
+Proof. unit_tac c. Qed.
+
+(* impl SubAssign for Unit *)
+Theorem ops_SubAssign_UU (x0 : unit_) (x1 : unit_) :
+  run_self c (g_SubAssign_UU c) [("self", MV (VU x0)); ("rhs", MV (VU x1))] = apply_op c 6 [VU x0; VU x1].
+Proof. unit_tac c. Qed.
+
+(* impl MulAssign for Unit *)
+Theorem ops_MulAssign_UU (x0 : unit_) (x1 : unit_) :
+  run_self c (g_MulAssign_UU c) [("self", MV (VU x0)); ("rhs", MV (VU x1))] = apply_op c 7 [VU x0; VU x1].
+Proof. unit_tac c. Qed.
+
+(* impl DivAssign for Unit *)
+Theorem ops_DivAssign_UU (x0 : unit_) (x1 : unit_) :
+  run_self c (g_DivAssign_UU c) [("self", MV (VU x0)); ("rhs", MV (VU x1))] = apply_op c 8 [VU x0; VU x1].
+Proof. unit_tac c. Qed.
+
+(* impl Neg for Unit *)
+Theorem ops_Neg_U (x0 : unit_) :
+  run_val c (g_Neg_U c) [("self", MV (VU x0))] = apply_op c 9 [VU x0].
+Proof. unit_tac c. Qed.
+
+(* impl From<PositionDerivative> for Unit *)
+Theorem ops_From_P_U (x0 : pd) :
+  run_val c (g_From_P_U c) [("was", MV (VPD x0))] = apply_op c 29 [VPD x0].
+Proof. unit_tac c. Qed.
+
+(* Unit::new *)
+Theorem ops_U_new (x0 : Z) (x1 : Z) :
+  run_val c (g_U_new c) [("millimeter_exp", MV (VI x0)); ("second_exp", MV (VI x1))] = apply_op c 34 [VI x0; VI x1].
+Proof. unit_tac c. Qed.
+
+(* Unit::eq_assume_true *)
+Theorem ops_U_eq_assume_true (x0 : unit_) (x1 : unit_) :
+  run_val c (g_U_eq_assume_true c) [("self", MV (VU x0)); ("rhs", MV (VU x1))] = apply_op c 41 [VU x0; VU x1].
+Proof. unit_tac c. Qed.
+
+(* Unit::eq_assume_false *)
+Theorem ops_U_eq_assume_false (x0 : unit_) (x1 : unit_) :
+  run_val c (g_U_eq_assume_false c) [("self", MV (VU x0)); ("rhs", MV (VU x1))] = apply_op c 42 [VU x0; VU x1].
+Proof. unit_tac c. Qed.
+
+(* Unit::assert_eq_assume_ok *)
+Theorem ops_U_assert_eq_assume_ok (x0 : unit_) (x1 : unit_) :
+  run_unit c (g_U_assert_eq_assume_ok c) [("self", MV (VU x0)); ("rhs", MV (VU x1))] = apply_op c 43 [VU x0; VU x1].
+Proof. unit_tac c. Qed.
+
+(* Unit::assert_eq_assume_not_ok *)
+Theorem ops_U_assert_eq_assume_not_ok (x0 : unit_) (x1 : unit_) :
+  run_unit c (g_U_assert_eq_assume_not_ok c) [("self", MV (VU x0)); ("rhs", MV (VU x1))] = apply_op c 44 [VU x0; VU x1].
+Proof. unit_tac c. Qed.
+
+(* Unit::const_eq *)
+Theorem ops_U_const_eq (x0 : unit_) (x1 : unit_) :
+  run_val c (g_U_const_eq c) [("self", MV (VU x0)); ("rhs", MV (VU x1))] = apply_op c 40 [VU x0; VU x1].
+Proof. unit_tac c. Qed.
+
+(* Unit::const_assert_eq *)
+Theorem ops_U_const_assert_eq (x0 : unit_) (x1 : unit_) :
+  run_unit c (g_U_const_assert_eq c) [("self", MV (VU x0)); ("rhs", MV (VU x1))] = apply_op c 45 [VU x0; VU x1].
+Proof. unit_tac c. Qed.
+
 End OpsTable.
 
 Print Assumptions ops_Add_TT.
@@ -658,3 +743,20 @@ Print Assumptions ops_Q_new.
 Print Assumptions ops_Q_dimensionless.
 Print Assumptions ops_T_new.
 Print Assumptions ops_D_new.
+Print Assumptions ops_Add_UU.
+Print Assumptions ops_Sub_UU.
+Print Assumptions ops_Mul_UU.
+Print Assumptions ops_Div_UU.
+Print Assumptions ops_AddAssign_UU.
+Print Assumptions ops_SubAssign_UU.
+Print Assumptions ops_MulAssign_UU.
+Print Assumptions ops_DivAssign_UU.
+Print Assumptions ops_Neg_U.
+Print Assumptions ops_From_P_U.
+Print Assumptions ops_U_new.
+Print Assumptions ops_U_eq_assume_true.
+Print Assumptions ops_U_eq_assume_false.
+Print Assumptions ops_U_assert_eq_assume_ok.
+Print Assumptions ops_U_assert_eq_assume_not_ok.
+Print Assumptions ops_U_const_eq.
+Print Assumptions ops_U_const_assert_eq.
